@@ -88,6 +88,9 @@ def _merge_and_result(st, strategy, t_full, states, ops, agg, cuts, klass,
   why = ('aggregates-in-several-stages' if _agg_stages(ops, agg, cuts) > 1
          else 'aggregates-in-one-stage')
   runner = t_full.make()
+  import copy
+  states = list(states)
+  fresh = copy.deepcopy(states)     # merging may modify the first state
   try:
     merged = runner.merge_states(states)
   except Exception as e:  # pylint: disable=broad-except
@@ -95,11 +98,25 @@ def _merge_and_result(st, strategy, t_full, states, ops, agg, cuts, klass,
                  dict(replay, error=repr(e)[:300]), replay=replay)
     raise _Reported() from e
   try:
-    return S.canon_agg(runner.get_result(merged))
+    result = S.canon_agg(runner.get_result(merged))
   except Exception as e:  # pylint: disable=broad-except
     st.violation(f'C03:get_result:raise:{type(e).__name__}:{why}',
                  dict(replay, error=repr(e)[:300]), replay=replay)
     raise _Reported() from e
+  # the shard states may also arrive as a one-shot stream (the orchestrators
+  # pass a generator fed from a queue): same merged result
+  try:
+    runner2 = t_full.make()
+    streamed = S.canon_agg(runner2.get_result(
+        runner2.merge_states(s for s in fresh)))
+  except Exception as e:  # pylint: disable=broad-except
+    st.violation(f'C03:merge_states(streamed):raise:{type(e).__name__}:{why}',
+                 dict(replay, error=repr(e)[:300]), replay=replay)
+    raise _Reported() from e
+  if streamed != result:
+    st.violation(f'C03:merge_states(streamed):result-differs-from-list:{why}',
+                 dict(replay, streamed=streamed, listed=result), replay=replay)
+  return result
 
 
 def check_program(st, ops, agg, n, shard_cuts, max_shards=4, iter_source=True):
